@@ -223,9 +223,13 @@ pub fn gen(r: &mut Rng) -> (Program, World) {
         }
     }
     let with_tok = r.chance(2, 3);
+    let two_names = with_tok && r.chance(1, 2);
     if with_tok {
         p.policies.push(("Pol".into(), hx(&POLICY_TOK)));
         p.assets.push(("Tok".into(), E::Hex(hx(&POLICY_TOK)), if r.chance(1, 2) { E::Str("TK".into()) } else { E::Hex("544b".into()) }));
+        if two_names {
+            p.assets.push(("Tok2".into(), E::Hex(hx(&POLICY_TOK)), E::Str("T2".into())));
+        }
     }
     p.types.push(TypeDef { name: "R".into(), record: true, cases: vec![CaseDef { name: "Default".into(), fields: vec![("counter".into(), Ty::Int), ("label".into(), Ty::Bytes), ("extra".into(), Ty::Int)] }] });
     p.types.push(TypeDef {
@@ -345,7 +349,19 @@ pub fn gen(r: &mut Rng) -> (Program, World) {
 
     // the rest of the body
     if with_tok && g.r.chance(1, 3) {
-        t.mints.push(MintBlock { amount: Some(E::Call("Tok".into(), vec![g.pos_int(1)])), redeemer: None });
+        // sometimes a second asset name under the same policy, in the same block or in its own
+        let first = E::Call("Tok".into(), vec![g.pos_int(1)]);
+        match if two_names { g.r.below(3) } else { 0 } {
+            0 => t.mints.push(MintBlock { amount: Some(first), redeemer: None }),
+            1 => {
+                let second = E::Call("Tok2".into(), vec![g.pos_int(1)]);
+                t.mints.push(MintBlock { amount: Some(E::Add(Box::new(first), Box::new(second))), redeemer: None });
+            }
+            _ => {
+                t.mints.push(MintBlock { amount: Some(first), redeemer: None });
+                t.mints.push(MintBlock { amount: Some(E::Call("Tok2".into(), vec![g.pos_int(1)])), redeemer: None });
+            }
+        }
         if g.r.chance(1, 2) {
             t.burns.push(MintBlock { amount: Some(E::Call("Tok".into(), vec![E::Num(g.r.range(1, 5))])), redeemer: None });
         }
